@@ -154,7 +154,7 @@ impl HCtx {
         let chunk_strs: Vec<String> = if whole.len() <= 64 {
             chunks.iter().map(|c| format!("{}:{}", c.len(), if c.is_empty() { "-".to_string() } else { c.iter().map(|b| b.to_string()).collect::<Vec<_>>().join(",") })).collect()
         } else {
-            let toks: Vec<String> = chunks.iter().map(|_| self.l1.canon.fresh_token()).collect();
+            let toks: Vec<String> = chunks.iter().map(|c| self.l1.canon.chunk_token(c)).collect();
             self.l1.canon.register_chunked(&whole, &toks);
             chunks.iter().zip(toks.iter()).map(|(c, t)| format!("{}:{}", c.len(), t)).collect()
         };
@@ -280,6 +280,7 @@ impl HCtx {
                 self.rebuild();
                 let l = self.allow_line();
                 self.l1.out.push(format!("OP {l}"));
+                self.l1.out.push("R allowed".to_string());
             }
             ["cfg", d, v] => {
                 self.l1.set_cfg(d.parse().unwrap(), v.parse().unwrap());
